@@ -32,7 +32,7 @@ VARS = [
  ("closePromise", "thread -> promised as it was when the thread called the root's Close"),
  ("barrierBroken", "a root Close returned before everything promised at its call was delivered and flushed"),
  ("unflushed", "a delivery happened since the last Flush"),
- ("callsAfterClose", "number of pass deliveries (counter, gauge, histogram), Flush or Close calls on the reporter after the first root Close returned"),
+ ("callsAfterClose", "number of pass deliveries (counter, gauge, histogram), Flush or Close calls the library's own passes made on the reporter after the first root Close returned"),
  ("reporterCloses", "number of Close calls on the reporter"),
  ("closeBeforeFlush", "the reporter was closed while deliveries were unflushed"),
  ("loopNotEnded", "a root Close returned while the report loop goroutine was still running"),
@@ -54,7 +54,8 @@ INIT = {
  "timerLog": "<<>>", "timerOpen": "<<>>", "timerBad": "FALSE",
 }
 
-RC = ("callsAfterClose", "IF rootCloseReturned # {} THEN callsAfterClose + 1 ELSE callsAfterClose")
+RC = ("callsAfterClose", "IF rootCloseReturned # {} /\\ own THEN callsAfterClose + 1 ELSE callsAfterClose")
+RC1 = ("callsAfterClose", "IF rootCloseReturned # {} THEN callsAfterClose + 1 ELSE callsAfterClose")
 
 # (name, params, comment, [(var, expr)], [extra enabling conjuncts])
 ACTIONS = [
@@ -63,16 +64,16 @@ ACTIONS = [
    ("promised", "IF ~inert /\\ o \\notin objClosed /\\ rootCloseCalled = {}\n                 THEN Put(promised, id, Norm(Get(promised, id) + v)) ELSE promised"),
    ("nonneg", "(nonneg /\\ v >= 0 /\\ Mod = 0)"),
    ("quiesced", "FALSE")], []),
- ("ObsDeliverCounter", "id, v", "the reporter received a counter delta (plain ReportCounter or a cached handle's ReportCount; histogram bucket sample counts too)",
+ ("ObsDeliverCounter", "id, v, own", "the reporter received a counter delta (plain ReportCounter or a cached handle's ReportCount; histogram bucket sample counts too); own: made by one of the library's own passes (report loop, Close) and not by a pass the harness drives through the test entry point",
   [("deliv", "Put(deliv, id, Norm(Get(deliv, id) + v))"),
    ("negDelivery", "(negDelivery \\/ (nonneg /\\ v <= 0))"),
    ("lateDelivery", "(lateDelivery \\/ quiesced)"),
    ("unflushed", "TRUE"), RC], []),
- ("ObsUpdateCall", "id, v", "Gauge.Update(v) has been called",
-  [("updc", "Put(updc, id, Append(GetSeq(updc, id), v))")], []),
- ("ObsUpdateReturn", "id", "Gauge.Update has returned",
-  [("upd", "Put(upd, id, Get(upd, id) + 1)")], []),
- ("ObsDeliverGauge", "id, v", "the reporter received a gauge value",
+ ("ObsUpdateCall", "id, v, inert", "Gauge.Update(v) has been called (inert: on a scope obtained after the root's Close - nothing is promised for it)",
+  [("updc", "IF inert THEN updc ELSE Put(updc, id, Append(GetSeq(updc, id), v))")], []),
+ ("ObsUpdateReturn", "id, inert", "Gauge.Update has returned",
+  [("upd", "IF inert THEN upd ELSE Put(upd, id, Get(upd, id) + 1)")], []),
+ ("ObsDeliverGauge", "id, v, own", "the reporter received a gauge value",
   [("gdl", "Put(gdl, id, Append(GetSeq(gdl, id), v))"), ("unflushed", "TRUE"), RC], []),
  ("ObsPassBegin", "p", "report pass p begins; due[g] = number of updates of g if every Update that began has returned, else -1",
   [("passes", "Put(passes, p, [ended |-> FALSE,\n                               due |-> [g \\in DOMAIN updc |-> IF Get(upd, g) = Len(updc[g]) THEN Len(updc[g]) ELSE -1]])")], []),
@@ -80,9 +81,9 @@ ACTIONS = [
   [("staleAfterPass", "(staleAfterPass \\/\n        (/\\ \\A q \\in DOMAIN passes : q = p \\/ passes[q].ended\n         /\\ \\E g \\in DOMAIN passes[p].due :\n              /\\ passes[p].due[g] = Len(updc[g]) /\\ Len(updc[g]) > 0\n              /\\ (g \\notin DOMAIN gdl \\/ Len(gdl[g]) = 0 \\/ Last(gdl[g]) # Last(updc[g]))))"),
    ("passes", "[passes EXCEPT ![p].ended = TRUE]")], ["p \\in DOMAIN passes"]),
  ("ObsQuiesce", "", "all scenario threads have finished and one more report pass has run", [("quiesced", "TRUE")], []),
- ("ObsFlush", "", "the reporter's Flush was called", [("unflushed", "FALSE"), RC], []),
+ ("ObsFlush", "own", "the reporter's Flush was called", [("unflushed", "FALSE"), RC], []),
  ("ObsReporterClose", "", "the reporter's Close was called",
-  [("reporterCloses", "reporterCloses + 1"), ("closeBeforeFlush", "(closeBeforeFlush \\/ unflushed)"), RC], []),
+  [("reporterCloses", "reporterCloses + 1"), ("closeBeforeFlush", "(closeBeforeFlush \\/ unflushed)"), RC1], []),
  ("ObsCloseCall", "o", "Close of subscope object o has been called", [("objClosed", "objClosed \\cup {o}")], []),
  ("ObsCloseReturn", "o", "Close of subscope object o has returned", [("objCloseDone", "objCloseDone \\cup {o}")], []),
  ("ObsSubCall", "t", "thread t asks for a (sub)scope",
@@ -93,8 +94,8 @@ ACTIONS = [
  ("ObsGot", "k, id, so, obj", "first-use request for metric (kind k, identity id) on scope object so returned metric object obj",
   [("objMismatch", "(objMismatch \\/ (<<k, id, so>> \\in DOMAIN gotObj /\\ gotObj[<<k, id, so>>] # obj))"),
    ("gotObj", "Put(gotObj, <<k, id, so>>, obj)")], []),
- ("ObsAlloc", "k, id, o", "the cached reporter's Allocate<k> was called for identity id on behalf of scope object o (a scope object that has been closed is not a live scope: what it allocates is not counted)",
-  [("allocs", "IF o \\in objClosed THEN allocs ELSE Put(allocs, <<k, id, o>>, Get(allocs, <<k, id, o>>) + 1)")], []),
+ ("ObsAlloc", "k, id, o", "the cached reporter's Allocate<k> was called for identity id on behalf of scope object o (a scope object that has been closed, or any scope once the root's Close has been called, is not a live scope: what it allocates is not counted)",
+  [("allocs", "IF o \\in objClosed \\/ rootCloseCalled # {} THEN allocs ELSE Put(allocs, <<k, id, o>>, Get(allocs, <<k, id, o>>) + 1)")], []),
  ("ObsRootCloseCall", "t", "thread t calls the root's Close",
   [("rootCloseCalled", "rootCloseCalled \\cup {t}"), ("closePromise", "Put(closePromise, t, promised)")], []),
  ("ObsRootCloseReturn", "t, err, experr, loopEnded", "the root's Close returned to thread t",
